@@ -72,7 +72,10 @@ func Start(o Opts) (*Engine, error) {
 		o.RTT = 2
 	}
 	if o.Ports[0] == 0 {
-		o.Ports = [2]int{freePort(), freePort()}
+		o.Ports[0] = freePort()
+	}
+	if o.Ports[1] == 0 {
+		o.Ports[1] = freePort()
 	}
 	raft := fmt.Sprintf("127.0.0.1:%d", o.Ports[0])
 	gossip := fmt.Sprintf("127.0.0.1:%d", o.Ports[1])
